@@ -17,6 +17,15 @@ NCPU = int(os.environ.get("VERIF_CPUS", "16"))
 GUARD = "CO_STACK_VERIF"
 
 
+def _die_with_parent():
+    """children (TLC, harness) must not outlive a killed check"""
+    try:
+        import ctypes, signal
+        ctypes.CDLL("libc.so.6").prctl(1, signal.SIGKILL)      # PR_SET_PDEATHSIG
+    except Exception:
+        pass
+
+
 class Infra(Exception):
     """infrastructure failure (exit 2), never a property violation"""
 
@@ -112,7 +121,7 @@ def run_tlc(module, cfg, workers=None, simulate=None, depth=None, seed=None, tim
     t0 = time.time()
     with open(outp, "w") as fo:
         try:
-            r = subprocess.run(cmd, cwd=SPEC, stdout=fo, stderr=subprocess.STDOUT, env=e, timeout=timeout)
+            r = subprocess.run(cmd, cwd=SPEC, stdout=fo, stderr=subprocess.STDOUT, env=e, timeout=timeout, preexec_fn=_die_with_parent)
             rc = r.returncode
         except subprocess.TimeoutExpired:
             rc = -9
@@ -300,7 +309,7 @@ def replay(exe, behs, preamble, name, nproc=None, keep=False):
 
     def run(fn):
         with open(fn) as fi, open(sib(fn, "out"), "w") as fo, open(sib(fn, "err"), "w") as fe:
-            r = subprocess.run([exe], stdin=fi, stdout=fo, stderr=fe, env=env)
+            r = subprocess.run([exe], stdin=fi, stdout=fo, stderr=fe, env=env, preexec_fn=_die_with_parent)
         return r.returncode
 
     with ThreadPoolExecutor(len(files)) as ex:
